@@ -556,7 +556,7 @@ def run(tier, seed, rng):
     out = Outcome()
     stats = {"filtered_D30_oneline_doc": 0, "filtered_D31_unsafe_doc": 0, "filtered_D32_linebreak_char": 0,
              "filtered_D33_literal_in_indented_text": 0, "filtered_D35_two_lambdas_on_a_line": 0}
-    n = {"quick": 420, "thorough": 9000}[tier]
+    n = {"quick": 420, "thorough": 7000}[tier]
     cases = corpus_cases()
     ncorpus = len(cases)
     plan = [("def", "source")] * 40 + [("def", "func")] * 22 + [("def", "deco")] * 10 + [("lam", "source")] * 16 + [("lam", "func")] * 12
